@@ -14,6 +14,12 @@ import z3
 from . import logic as L
 
 StrSort = z3.DeclareSort("Str")
+# strings as a length and a character function (TB-py): s[k] is the one-character string chr_at(s, k);
+# int(s) is int_of_str(s) where s is an integer literal, ValueError otherwise
+strlen = z3.Function("strlen", StrSort, z3.IntSort())
+chr_at = z3.Function("chr_at", StrSort, z3.IntSort(), StrSort)
+is_int_literal = z3.Function("is_int_literal", StrSort, z3.BoolSort())
+int_of_str = z3.Function("int_of_str", StrSort, z3.IntSort())
 Opq = z3.DeclareSort("Opaque")
 
 
